@@ -116,6 +116,7 @@ func TestWorker(t *testing.T) {
 	sn, _ := strconv.Atoi(parts[1])
 	if def.e1 != nil {
 		scs := def.e1(*fTier)
+		memBase = rssBytes()
 		skip := map[string]bool{}
 		if *fSkip != "" {
 			if b, err := os.ReadFile(*fSkip); err == nil {
@@ -150,7 +151,7 @@ func TestWorker(t *testing.T) {
 				fmt.Fprintf(os.Stderr, "DBG rounds=%d execs=%d\n", dbgRounds, st.ExecsTotal)
 			}
 			emit("S", st)
-			if (memExceeded || rssBytes() > memSoft) && os.Getenv("VH_NO_RESTART") == "" && *fOut != "" {
+			if (memExceeded || memGrowth() > memSoft) && os.Getenv("VH_NO_RESTART") == "" && *fOut != "" {
 				// ask the driver for a fresh process: it continues with the scenarios not done yet
 				emit("M", map[string]any{"rss_mb": rssBytes() >> 20})
 				out.Flush()
